@@ -94,7 +94,13 @@ func BuildTools(repo, dir string) (*Tools, error) {
 	}
 	t := &Tools{Repo: repo, Harness: HarnessDir(), Scratch: dir,
 		Plugin: filepath.Join(dir, "protoc-gen-terraform"), Gogo: filepath.Join(dir, "protoc-gen-gogo")}
-	cmd := exec.Command("go", "build", "-o", t.Plugin, ".")
+	args := []string{"build", "-o", t.Plugin, "."}
+	if os.Getenv("VERIF_COVER") != "" {
+		// engine cov: statement coverage of the generator reached by the generated descriptors
+		// (reported in the evidence as a measure of generator completeness, never as a verdict)
+		args = []string{"build", "-cover", "-o", t.Plugin, "."}
+	}
+	cmd := exec.Command("go", args...)
 	cmd.Dir = repo
 	cmd.Env = GoEnv("GOFLAGS=-mod=readonly")
 	if out, err := cmd.CombinedOutput(); err != nil {
@@ -146,6 +152,9 @@ func (r *PluginResult) Failed() bool {
 func runTool(bin string, req []byte, cwd string, timeout time.Duration) (exit int, stdout, stderr []byte, timedOut bool, err error) {
 	cmd := exec.Command(bin)
 	cmd.Dir = cwd
+	if d := os.Getenv("VERIF_COVERDIR"); d != "" {
+		cmd.Env = append(os.Environ(), "GOCOVERDIR="+d)
+	}
 	cmd.Stdin = bytes.NewReader(req)
 	var so, se bytes.Buffer
 	cmd.Stdout, cmd.Stderr = &so, &se
